@@ -124,6 +124,10 @@ def encode_order(rng, cls):
     n = len(cls)
     k = max(cls) + 1
     style = rng.choice(["none?", "int", "int", "float", "mixed", "neg", "big", "bool?", "scores", "scores_f", "scores_neg", "frac", "bigint"])
+    if style == "bigint" and rng.random() < 0.3:
+        if rng.random() < 0.5:
+            return {"scores": [1e17 if c == 0 else float(2 * k - c) for c in cls]}, "widerange"
+        return {"ranks": [1e18 if c == k - 1 else c * 0.5 for c in cls]}, "widerange"
     if style == "bigint":
         base = rng.choice([2**53, 10**18, -(2**62), 2**64])
         r = rng.random()
@@ -392,6 +396,11 @@ def all_encodings(rng, cls):
     encs.append({"ranks": [(c + 1) * 1e15 for c in cls]})
     encs.append({"ranks": [(c + 1) * 10**12 for c in cls]})
     encs.append({"ranks": [9007199254740992.0 + 2.0 * c for c in cls]})
+    # wide dynamic range: one huge value beside small distinct ones (differences against the extreme collapse in doubles)
+    encs.append({"scores": [1e17 if c == 0 else float(2 * k - c) for c in cls]})
+    encs.append({"ranks": [-1e17 if c == 0 else float(c) for c in cls]})
+    encs.append({"scores": [1e300 if c == 0 else (1e-300 * (k - c) if c == k - 1 else float(k - c)) for c in cls]})
+    encs.append({"ranks": [1e18 if c == k - 1 else c * 0.5 for c in cls]})
     encs.append({"ranks": [2**53 + c for c in cls]})               # distinct ints that are not distinct doubles
     encs.append({"ranks": [(2**53 + c) if c % 2 else float(2**53 + c) for c in cls]})      # ints and floats within one ulp of each other
     encs.append({"ranks": [(2**60 + 256 * c + 1) if c % 2 else float(2**60 + 256 * c) for c in cls]})
